@@ -32,6 +32,9 @@ def sort_table(prog, fids):
     # comparators (functions and closures of sort.rs that return Ordering)
     for fid, b in prog.bodies.items():
         if b.file == "a2lfile/src/sort.rs" and (fid in fids or (b.parent and any(b.parent.startswith(mir.strip_generics(f)) or b.parent.startswith(f) for f in fids))):
+            from . import cmpsem
+            if "error" not in cmpsem.decision_table(prog, fid):
+                continue        # checked semantically (decision table over all relative orders of its keys): R15-cmp / R14-cmp
             rows = diag.ordering_rows(prog, A, fid)
             if rows:
                 have = t.setdefault(re.sub(r"\{closure#\d+\}", "{closure}", mir.strip_generics(fid)), [])
